@@ -24,6 +24,7 @@ EXPLANATION = (
     "pointer, added to the length and copied is one expression.")
 
 RULES = {
+    "C02-XC": "(thorough) decision tables of the configuration-independent functions of this property are identical in every build configuration",
     "C02-D1": "findCommandHeader: index from 0 upwards, ends at NULL pattern, first matchCommand hit stores that entry and returns TRUE",
     "C02-D2": "exactly one call-back invocation per dispatched unit; dispatch at most once per unit, only on the found edge",
     "C02-D3": "previous-header token: empty per message; assigned from the composed header on every path from the composition to the next unit",
@@ -45,32 +46,53 @@ def rule_d1(ck, prog, S):
         return
     call = mc[0]
     problems = []
-    # pattern argument: cmdlist[i].pattern or alias cmd->pattern where cmd = &cmdlist[i]
     al, resolve = X.aliases(f)
+
+    def obj_of_pointer(path):
+        """object a pointer-valued expression points to"""
+        if path in al:
+            return al[path]
+        if path.startswith("&"):
+            return path[1:]
+        return "*" + path
     pat = C.call_args(call)[0].strip_all_casts()
-    full = X.norm(resolve(pat.get("path") or ""))
-    idx = None
-    raw = resolve(pat.get("path") or "")
-    if "cmdlist[" in raw and raw.endswith(".pattern"):
-        idx = raw[raw.index("cmdlist[") + 8: raw.index("]", raw.index("cmdlist["))]
+    P_ = pat.get("path") or ""
+    entry = None      # the table entry whose pattern is tested
+    if P_.endswith("->pattern"):
+        entry = obj_of_pointer(P_[:-len("->pattern")])
+    elif P_.endswith(".pattern"):
+        entry = P_[:-len(".pattern")]
+    idx = None        # the iteration variable
+    if entry is None:
+        problems.append("matchCommand is not applied to the pattern of a table entry (`%s`)" % pat.src)
+    elif "cmdlist[" in entry:
+        idx = entry[entry.index("cmdlist[") + 8: entry.index("]", entry.index("cmdlist["))]
+        start_ok = lambda n_: n_.get("op") == "=" and C.const_of(n_.child(1)) == 0
+        decl_ok = lambda init: C.const_of(init) == 0
+    elif entry.startswith("*"):
+        idx = entry[1:]
+        start_ok = lambda n_: n_.get("op") == "=" and (n_.child(1).strip_all_casts().get("path") or "").endswith("->cmdlist")
+        decl_ok = lambda init: (init.strip_all_casts().get("path") or "").endswith("->cmdlist")
     else:
-        problems.append("matchCommand is not applied to cmdlist[i].pattern (`%s`)" % pat.src)
+        problems.append("cannot identify the table iteration in `%s`" % pat.src)
     if idx:
         stores = [(n, t) for n, t in C.stores(f) if t.get("path") == idx]
-        init0 = any(n.get("op") == "=" and C.const_of(n.child(1)) == 0 for n, t in stores)
+        init0 = any(start_ok(n) for n, t in stores)
         for d in f.nodes.values():
             if d.k == "DeclStmt":
                 for dd in d.get("decls", []):
-                    if dd["name"] == idx and "init" in dd and C.const_of(f.nodes[dd["init"]]) == 0:
+                    if dd["name"] == idx and "init" in dd and decl_ok(f.nodes[dd["init"]]):
                         init0 = True
-        steps = [n for n, t in stores if not (n.get("op") == "=" and C.const_of(n.child(1)) == 0)]
+        steps = [n for n, t in stores if not start_ok(n)]
         up = all((n.k == "UnaryOperator" and n.get("op") == "++") or
-                 (n.get("op") == "+=" and C.const_of(n.child(1)) == 1) for n in steps)
+                 (n.get("op") == "+=" and C.const_of(n.child(1)) == 1) or
+                 (n.get("op") == "=" and n.child(1).strip_all_casts().k == "BinaryOperator" and n.child(1).strip_all_casts().get("op") == "+"
+                  and n.child(1).strip_all_casts().child(0).strip_all_casts().get("path") == idx and C.const_of(n.child(1).strip_all_casts().child(1)) == 1)
+                 for n in steps)
         if not init0:
-            problems.append("table index `%s` does not start at 0" % idx)
+            problems.append("the scan does not start at the first table entry (`%s`)" % idx)
         if not up or not steps:
-            problems.append("table index `%s` is not advanced by exactly one per iteration" % idx)
-        # loop condition: cmdlist[i].pattern != NULL
+            problems.append("the scan does not advance by exactly one entry per iteration")
         heads = C.loops(f)
         cond_ok = False
         for h, body in heads:
@@ -78,11 +100,14 @@ def rule_d1(ck, prog, S):
             if c is None:
                 continue
             for atom, pol in C.cond_facts(c, True):
-                p = X.norm(resolve(atom.get("path") or "")) if atom.get("path") else None
+                cand = atom
                 if atom.k == "BinaryOperator" and atom.get("op") == "!=":
-                    p = X.norm(resolve(atom.child(0).strip_all_casts().get("path") or ""))
-                if p and p.endswith("cmdlist[].pattern"):
-                    cond_ok = True
+                    cand = atom.child(0).strip_all_casts()
+                pp = cand.get("path") or ""
+                if pp.endswith("pattern"):
+                    e2 = obj_of_pointer(pp[:-len("->pattern")]) if pp.endswith("->pattern") else pp[:-len(".pattern")]
+                    if e2 == entry:
+                        cond_ok = True
         if not cond_ok:
             problems.append("the scan does not end at the first NULL pattern")
     # on the true edge of matchCommand: store param_list.cmd = &cmdlist[i] (same i) and return TRUE
@@ -111,12 +136,9 @@ def rule_d1(ck, prog, S):
             problems.append("the matched entry is not stored in param_list.cmd")
             break
         rhs = cmdstores[-1].child(1).strip_all_casts()
-        rp = rhs.get("path") or ""
-        rfull = resolve(rp) if not rp.startswith("&") else rp
-        rres = al.get(rp, None)
-        val = ("&" + rres) if rres else rfull
-        if val.replace(" ", "") != "&context->cmdlist[%s]" % idx:
-            problems.append("param_list.cmd is set to `%s`, not to the entry whose pattern matched (&cmdlist[%s])" % (rhs.src, idx))
+        got = obj_of_pointer(rhs.get("path") or rhs.src)
+        if entry is not None and got != entry:
+            problems.append("param_list.cmd is set to `%s`, not to the entry whose pattern matched" % rhs.src)
             break
     miss = [ps for ps in sums if not any(a is call and pol is True for a, pol in ps.facts if not isinstance(pol, tuple))]
     if any(ps.ret is None or ps.ret.truth() is not False for ps in miss):
@@ -194,7 +216,7 @@ def rule_d2_d5(ck, prog, S):
             ck.holds("C02-D2", st, K.loc(parse, pc), "one dispatch per unit, only after a successful lookup")
     # D5 identity
     summ = {"findCommandHeader": X.return_stores(find)}
-    pgs, sts = X.must_stored(parse, reset_calls=("scpiParser_detectProgramMessageUnit",), callee_summaries=summ)
+    pgs, sts = X.must_stored(parse, reset_calls=("scpiParser_detectProgramMessageUnit",), callee_summaries=summ, prog=prog)
     have = sts.get(pgs.before(pc), frozenset())
     hdr_arg = C.call_args(fch[0])[1].strip_all_casts().get("path") or ""
     hdr_tok = hdr_arg[:-len(".ptr")] if hdr_arg.endswith(".ptr") else None
@@ -303,12 +325,15 @@ def rule_d3_d4(ck, prog, S):
             ck.holds("C02-D3", st, K.loc(parse, fch[0]), "lookup of (%s.ptr, %s.len) after composition" % (cur, cur))
     # D4
     undef = prog.enumconst.get("SCPI_ERROR_UNDEFINED_HEADER", -113)
-    pushes = [c for c in parse.calls() if c.get("callee") in ("SCPI_ErrorPushEx", "SCPI_ErrorPush") and C.const_of(K.arg(c, 1)) == -113]
+    sites = K.effect_sites(prog, S, parse, lambda c: c.get("callee") in ("SCPI_ErrorPushEx", "SCPI_ErrorPush") and C.const_of(K.arg(c, 1)) == -113)
     st = K.site(parse, "undefined-header", 0)
-    if len(pushes) != 1:
-        ck.violated("C02-D4", st, K.loc(parse), "expected exactly one -113 site in SCPI_Parse, found %d" % len(pushes))
+    if len(sites) != 1:
+        if not sites:
+            ck.anchor_lost("C02-D4", "no -113 site reachable from SCPI_Parse (directly or through a helper that always queues it)")
+        else:
+            ck.violated("C02-D4", st, K.loc(parse), "expected exactly one -113 site in SCPI_Parse, found %d" % len(sites))
     elif fch:
-        p = pushes[0]
+        p, real, host = sites[0]
         false_dst, true_dst = [], []
         for p_, es in pg.out.items():
             for e in es:
@@ -316,11 +341,11 @@ def rule_d3_d4(ck, prog, S):
                     for atom, pol in C.cond_facts(e.label[1], e.label[0] == "true"):
                         if atom is fch[0]:
                             (true_dst if pol else false_dst).append(e.dst)
-        # every path from the not-found edge to the next unit passes the push exactly once; none from found edge
         r_nf = pg.reachable(false_dst, blocked_edge=lambda e: e.kind == "elem" and (e.node is p))
         r_f = pg.reachable(true_dst, blocked_edge=lambda e: e.kind == "elem" and e.node in det)
         in_loop = any(parse.where[p.id][0].id in body and parse.where[fch[0].id][0].id not in body for h, body in C.loops(parse))
-        text_ok = p.get("callee") == "SCPI_ErrorPushEx" and C.call_args(p)[2].strip_all_casts().get("path") == "data"
+        ta = K.arg_through(prog, p, real, host, 2)
+        text_ok = real.get("callee") == "SCPI_ErrorPushEx" and ta is not None and ta.strip_all_casts().get("path") == "data"
         if pg.before(det[0]) in r_nf or pg.exit in r_nf:
             ck.violated("C02-D4", st, K.loc(parse, p), "an undefined header can pass without queuing -113")
         elif pg.before(p) in r_f:
@@ -328,7 +353,7 @@ def rule_d3_d4(ck, prog, S):
         elif in_loop:
             ck.violated("C02-D4", st, K.loc(parse, p), "-113 is queued inside an inner loop (more than once per unit)")
         elif not text_ok:
-            ck.violated("C02-D4", st, K.loc(parse, p), "-113 does not carry the text of the offending unit (`%s`)" % p.src)
+            ck.violated("C02-D4", st, K.loc(parse, p), "-113 does not carry the text of the offending unit (`%s`)" % real.src)
         else:
             ck.holds("C02-D4", st, K.loc(parse, p), "exactly one -113 with the unit text on the not-found edge")
     ck.analysed(parse)
@@ -349,6 +374,8 @@ def rule_d6(ck, prog, S):
             p = l.get("path") or ""
             if c is not None and "->ptr[" in p:
                 tests.setdefault(p.split("->")[0] + ("[0]" if p.endswith("[0]") else "[scan]"), set()).add(chr(c))
+            elif c is not None and p.startswith("*") and p.endswith("->ptr"):
+                tests.setdefault(p[1:].split("->")[0] + "[0]", set()).add(chr(c))
     st = K.site(f, "deciding-characters", 0)
     want = {curp + "[0]": {"*", ":"}, prevp + "[0]": {"*"}, prevp + "[scan]": {":"}}
     if tests != want:
@@ -407,6 +434,8 @@ def run(ck, fb, tier):
         rule_d3_d4(ck, prog, S)
         rule_d6(ck, prog, S)
     ck.assume("matchCommand decides the pattern language (C03, not claimed)")
+    if tier == "thorough":
+        K.cross_config(ck, fb, "C02-XC", ['findCommandHeader', 'processCommand', 'composeCompoundCommand'])
 
 
 TECHNIQUE = ("static analysis: decision table of the first-match scan by path enumeration, exactly-once / "
